@@ -1,13 +1,29 @@
 (* Hand-written executable model of the search tree polyply grows a cyclic molecule along:
    networkx dfs_edges (preorder, neighbours in adjacency order, first visit wins), the edge order
    of the DiGraph nx.dfs_tree builds from them (grouped by source, sources in insertion order),
-   and the pair gen_coords._initialize_cylces restrains:
-       nodes = (list(tree.edges)[0][0], list(tree.edges)[-1][1]). *)
+   and the pair gen_coords._initialize_cylces restrains: the edge of the molecule the search tree leaves out, its ends in
+   the order the tree reached them,
+       order   = list(tree.nodes)
+       closing = [tuple(sorted(edge, key=order.index)) for edge in molecule.edges
+                  if not tree.has_edge(u, v) and not tree.has_edge(v, u)]   # edge = (u, v)
+       ends    = (list(tree.edges)[0][0], list(tree.edges)[-1][1])
+       nodes   = closing[0] if closing else ends *)
 From Coq Require Import ZArith List Bool.
 Import ListNotations.
 Open Scope Z_scope.
 
 Definition memz (u : Z) (l : list Z) : bool := existsb (Z.eqb u) l.
+
+(* tree.has_edge(u, v) or tree.has_edge(v, u) *)
+Definition same_edge (f e : Z * Z) : bool :=
+  ((fst f =? fst e) && (snd f =? snd e)) || ((fst f =? snd e) && (snd f =? fst e)).
+Definition in_tree (t : list (Z * Z)) (e : Z * Z) : bool := existsb (fun f => same_edge f e) t.
+(* order.index *)
+Fixpoint index_of (x : Z) (l : list Z) : nat :=
+  match l with [] => O | y :: r => if y =? x then O else S (index_of x r) end.
+(* tuple(sorted(edge, key=order.index)): stable *)
+Definition orient (order : list Z) (e : Z * Z) : Z * Z :=
+  if (index_of (snd e) order <? index_of (fst e) order)%nat then (snd e, fst e) else e.
 
 Section Dfs.
   Variable adj : Z -> list Z.                     (* list(G[v]) *)
@@ -31,10 +47,20 @@ Section Dfs.
     let es := dfs_edges nnodes root in
     flat_map (fun u => filter (fun e => fst e =? u) es) (root :: map snd es).
 
+  (* ends: first source, last target *)
   Definition cycle_pair (nnodes : nat) (root : Z) : option (Z * Z) :=
     match tree_edges nnodes root with
     | [] => None
     | e :: r => Some (fst e, snd (last r e))
+    end.
+
+  (* list(tree.nodes): T.add_node(root), then every edge adds its (new) target *)
+  Definition tree_nodes (nnodes : nat) (root : Z) : list Z := root :: map snd (dfs_edges nnodes root).
+
+  Definition closing_pair (edges : list (Z * Z)) (nnodes : nat) (root : Z) : option (Z * Z) :=
+    match filter (fun e => negb (in_tree (tree_edges nnodes root) e)) edges with
+    | e :: _ => Some (orient (tree_nodes nnodes root) e)
+    | [] => cycle_pair nnodes root
     end.
 End Dfs.
 
